@@ -756,17 +756,19 @@ class LearnerND(BaseLearner):
 
     def _update_losses(self, to_delete: set, to_add: set):
         # XXX: add the points outside the triangulation to this as well
-        pending_points_unbound = set()
+        # ordered (dict keys), not a set: the iteration order of a set of float
+        # tuples depends on the hashes of the coordinates, i.e. on the unit of x
+        pending_points_unbound = {}
 
         for simplex in to_delete:
             loss = self._losses.pop(simplex, None)
             subtri = self._subtriangulations.pop(simplex, None)
             if subtri is not None:
-                pending_points_unbound.update(subtri.vertices)
+                pending_points_unbound.update(dict.fromkeys(subtri.vertices))
 
-        pending_points_unbound = {
+        pending_points_unbound = [
             p for p in pending_points_unbound if p not in self.data
-        }
+        ]
         for simplex in to_add:
             loss = self._compute_loss(simplex)
             self._losses[simplex] = loss
